@@ -21,7 +21,9 @@ RULE = ("K-rt: all 18 combinations (defer, namespace environment at def time in 
         "by _from_namespace in {none, E1, E2}); K-gen: every template source of the generated sets; oracle: generated "
         "inheritance hierarchies (C04 generator) and include/import sets (C05 generator) x {folder, stored zip, "
         "deflated zip}, from a DictLoader and from files through a FileSystemLoader with the template names in "
-        "include / import / extends tags spelled x, ./x, /x, .//x; distinct = (sources, data, mode); non-trivial = at least two templates take part and the "
+        "include / import / extends tags spelled x, ./x, /x, .//x; two-environment histories (different filter / test / "
+        "undefined type; one ModuleLoader object shared or one per environment; interleaved loads and renders; Template "
+        "objects of one environment used by the other through extends / include / import); distinct = (sources, data, mode); non-trivial = at least two templates take part and the "
         "source render produces output.")
 
 
@@ -88,7 +90,7 @@ def run(ctx):
         "the body of a generated function is the same text in both modes (K-gen) and reads the environment only "
         "through the name `environment`",
         "import machinery, zipimport, marshal / .pyc handling are CPython's (level P)",
-        "namespace['environment'] is not re-assigned between _from_namespace and the render (one ModuleLoader per environment)",
+        "every ModuleLoader.load execs the module anew (own namespace per loaded Template): exercised by the two-environment histories, not proved",
     ]
     ctx.proof("C31")
 
@@ -172,6 +174,7 @@ def run(ctx):
     finally:
         shutil.rmtree(scratch_root, ignore_errors=True)
     fs_stream(ctx, jinja2, ModuleLoader)
+    multi_env_stream(ctx, jinja2, ModuleLoader)
 
 
 SPELLINGS = ["%s", "./%s", "/%s", ".//%s", "%s", "%s"]
@@ -236,6 +239,104 @@ def fs_stream(ctx, jinja2, ModuleLoader):
         shutil.rmtree(root, ignore_errors=True)
 
 
+ME_SOURCES = {
+    "layout": "L<{{ x|tag }}>{% block b %}lb<{{ x|tag }}{{ nope|tag }}>{% endblock %}",
+    "page": "{% extends layout %}{% block b %}pb<{{ x|tag }}>{{ super() }}{% endblock %}",
+    "inc": "I<{{ x|tag }}{% if x is marked %}!{% endif %}>",
+    "user": "U<{{ x|tag }}>{% include target %}|{% import other as m %}{{ m.f(x) }}",
+    "lib": "{% macro f(v) %}F<{{ v|tag }}>{% endmacro %}",
+}
+
+
+def make_world(jinja2, loaders):
+    """two differently configured environments (filter, test, undefined type); loaders = (for A, for B)"""
+    envs = {}
+    for label, loader, undef in (("a", loaders[0], jinja2.Undefined), ("b", loaders[1], jinja2.ChainableUndefined)):
+        e = jinja2.Environment(loader=loader, undefined=undef)
+        e.filters["tag"] = (lambda lab: (lambda v: f"{lab}:{type(v).__name__}"))(label)
+        e.tests["marked"] = (lambda lab: (lambda v: lab == "b"))(label)
+        envs[label] = e
+    return envs
+
+
+def run_history(jinja2, envs, ops):
+    """ops: ("get", env, name) | ("render", env, name, {var: ("name", n) | ("obj", env2, n)})"""
+    out = []
+    for op in ops:
+        try:
+            if op[0] == "get":
+                envs[op[1]].get_template(op[2])
+                out.append("ok")
+            else:
+                data = {"x": 1}
+                for k, v in op[3].items():
+                    data[k] = v[1] if v[0] == "name" else envs[v[1]].get_template(v[2])
+                out.append(envs[op[1]].get_template(op[2]).render(data))
+        except Exception as e:  # noqa
+            out.append("X:" + type(e).__name__)
+    return out
+
+
+def multi_env_stream(ctx, jinja2, ModuleLoader):
+    """histories over TWO environments: one ModuleLoader object shared by both (or one per environment over the
+    same archive), loads and renders interleaved, Template objects of one environment used by the other through
+    extends / include / import; against two source-loading environments running the same history"""
+    rng = ctx.rng
+    root = os.path.join(lib.BUILD, f"c31_me_{os.getpid()}")
+    os.makedirs(root, exist_ok=True)
+
+    def ref_arg(name):
+        k = rng.random()
+        if k < 0.4:
+            return ("name", name)
+        return ("obj", rng.choice("ab"), name)
+
+    try:
+        for idx in range(ctx.size(150, 1500)):
+            ops = []
+            for _ in range(rng.randint(2, 6)):
+                k = rng.random()
+                e = rng.choice("ab")
+                if k < 0.3:
+                    ops.append(("get", e, rng.choice(list(ME_SOURCES))))
+                elif k < 0.5:
+                    ops.append(("render", e, rng.choice(["layout", "inc"]), {}))
+                elif k < 0.8:
+                    ops.append(("render", e, "page", {"layout": ref_arg("layout")}))
+                else:
+                    ops.append(("render", e, "user", {"target": ref_arg(rng.choice(["inc", "layout"])), "other": ref_arg("lib")}))
+            mode = (None, "stored", "deflated")[idx % 3]
+            shared = rng.random() < 0.6
+            target = os.path.join(root, f"h{idx}" + (".zip" if mode else ""))
+            try:
+                ref = run_history(jinja2, make_world(jinja2, (jinja2.DictLoader(ME_SOURCES), jinja2.DictLoader(ME_SOURCES))), ops)
+                try:
+                    make_world(jinja2, (jinja2.DictLoader(ME_SOURCES), None))["a"].compile_templates(
+                        target, zip=mode, log_function=lambda x: None, ignore_errors=False)
+                    ml = ModuleLoader(target)
+                    got = run_history(jinja2, make_world(jinja2, (ml, ml if shared else ModuleLoader(target))), ops)
+                except Exception as e:  # noqa
+                    got = ["X:compile_templates/ModuleLoader:" + type(e).__name__ + ":" + str(e)[:80]]
+            finally:
+                if os.path.isdir(target):
+                    shutil.rmtree(target, ignore_errors=True)
+                elif os.path.exists(target):
+                    os.unlink(target)
+            cross = any(op[0] == "render" and any(v[0] == "obj" and v[1] != op[1] for v in op[3].values()) for op in ops)
+            both = len({op[1] for op in ops}) == 2
+            nontriv = both and any(not r.startswith("X:") and r != "ok" for r in ref)
+            case = {"ops": ops, "zip": mode, "shared_loader": shared, "sources": ME_SOURCES}
+            ctx.case(sample=dict(case, results=ref) if nontriv and cross else None, key=("me", idx) if nontriv else None)
+            ctx.count("multi-env:" + ("shared-loader" if shared else "loader-per-env") + (":cross-object" if cross else ""))
+            if got != ref:
+                ctx.reject(dict(case, precompiled=got, source=ref),
+                           f"two-environment history: precompiled gives {got} but source loading gives {ref}", None)
+            else:
+                ctx.validated()
+    finally:
+        shutil.rmtree(root, ignore_errors=True)
+
+
 def render(jinja2, kind, s, srcs, loader):
     if kind == "inh":
         env = jinja2.Environment(loader=loader)
@@ -247,6 +348,28 @@ def replay(ctx, data):
     jinja2 = lib.use_repo_jinja()
     from jinja2.loaders import ModuleLoader
     case = data.get("case")
+    if data.get("kind") == "failing-input" and case is not None and "ops" in case:
+        ops = [tuple(o[:3]) + (({k: tuple(v) for k, v in o[3].items()},) if len(o) > 3 else ()) for o in case["ops"]]
+        mode = case["zip"]
+        target = os.path.join(lib.BUILD, f"c31_replay_{os.getpid()}" + (".zip" if mode else ""))
+        ref = run_history(jinja2, make_world(jinja2, (jinja2.DictLoader(ME_SOURCES), jinja2.DictLoader(ME_SOURCES))), ops)
+        try:
+            try:
+                make_world(jinja2, (jinja2.DictLoader(ME_SOURCES), None))["a"].compile_templates(
+                    target, zip=mode, log_function=lambda x: None, ignore_errors=False)
+                ml = ModuleLoader(target)
+                got = run_history(jinja2, make_world(jinja2, (ml, ml if case["shared_loader"] else ModuleLoader(target))), ops)
+            except Exception as e:  # noqa
+                got = ["X:compile_templates/ModuleLoader:" + type(e).__name__ + ":" + str(e)[:80]]
+        finally:
+            if os.path.isdir(target):
+                shutil.rmtree(target, ignore_errors=True)
+            elif os.path.exists(target):
+                os.unlink(target)
+        print("ops        :", ops, "\nsource     :", ref, "\nprecompiled:", got)
+        if got != ref:
+            ctx.reject(case, f"two-environment history: precompiled gives {got} but source loading gives {ref}")
+        return
     if data.get("kind") != "failing-input" or case is None or "sources" not in case:
         print("replay: this file names a broken theorem/correspondence, not an input:", data.get("broken"))
         return run(ctx)
